@@ -140,11 +140,18 @@ class HintMonitor:
         mon = self
         real = self.real
 
-        def timestamp_at_tick(self_: Any, tick: Any, *, start_iteration_index: int = 0) -> Any:
+        def timestamp_at_tick(self_: Any, *args: Any, **kwargs: Any) -> Any:
+            # transparent whatever the calling convention of the tree under test is
             if getattr(_tls, "inside_hint", False):
-                return real(self_, tick, start_iteration_index=start_iteration_index)
-            res = real(self_, tick, start_iteration_index=start_iteration_index)
-            mon.observe(self_, tick, start_iteration_index, res)
+                return real(self_, *args, **kwargs)
+            res = real(self_, *args, **kwargs)
+            try:
+                tick = args[0] if args else kwargs["tick"]
+                hint = kwargs.get("start_iteration_index", args[1] if len(args) > 1 else 0)
+            except (KeyError, IndexError):
+                return res  # another signature: observe nothing rather than guess
+            if isinstance(hint, int):
+                mon.observe(self_, tick, hint, res)
             return res
 
         timestamp_at_tick.__wrapped__ = real  # type: ignore[attr-defined]
@@ -172,6 +179,11 @@ class HintMonitor:
                     continue
                 try:
                     alt = self.real(be, tick, start_iteration_index=h)
+                except TypeError:
+                    # the tree's query has another signature: nothing to re-evaluate
+                    self.probes["hint_reevaluation_unavailable"] = self.probes.get(
+                        "hint_reevaluation_unavailable", 0) + 1
+                    return
                 except Exception as e:  # noqa: BLE001
                     alt = ("exc", type(e).__name__)
                 if alt != res:
